@@ -44,13 +44,19 @@ func (b *codeBlockParser) Open(parent ast.Node, reader text.Reader, pc Context) 
 
 func (b *codeBlockParser) Continue(node ast.Node, reader text.Reader, pc Context) State {
 	line, segment := reader.PeekLine()
-	if util.IsBlank(line) {
-		node.Lines().Append(segment.TrimLeftSpaceWidth(4, reader.Source()))
-		return Continue | NoChildren
-	}
 	pos, padding := util.IndentPosition(line, reader.LineOffset(), 4)
 	if pos < 0 {
-		return Close
+		if !util.IsBlank(line) {
+			return Close
+		}
+		// a blank line with less than 4 columns of white space: only
+		// the line ending is left.
+		i := 0
+		for i < len(line) && (line[i] == ' ' || line[i] == '\t') {
+			i++
+		}
+		node.Lines().Append(text.NewSegment(segment.Start+i-segment.Padding, segment.Stop))
+		return Continue | NoChildren
 	}
 	reader.AdvanceAndSetPadding(pos, padding)
 	_, segment = reader.PeekLine()
